@@ -325,7 +325,7 @@ def build(spec: dict) -> Problem:
     )
     if atol_eff:
         prob.notes["atol_boundary"] = atol_eff
-    _encode(prob, rng_for(*spec["case"], 7))
+    _encode(prob, rng_for(*spec["case"], 7), input_term=True)
     return prob
 
 
@@ -472,7 +472,7 @@ def _gr_to_sympy(g: GR):
     return sympy.Rational(g.re.numerator, g.re.denominator) + sympy.I * sympy.Rational(g.im.numerator, g.im.denominator)
 
 
-def _encode(p: Problem, rng):
+def _encode(p: Problem, rng, input_term: bool = False):
     """Build the block_diagonalize arguments for the problem's designation/container."""
     spec = p.spec
     vtype, design = spec["vtype"], spec["design"]
@@ -547,6 +547,26 @@ def _encode(p: Problem, rng):
                 if not cplx:
                     M = M.real
                 terms_enc[o] = _sp(M) if vtype == "sparse" else np.array(M)
+        if input_term and not p.exact and p.n_par >= 1 and rng.random() < 0.35:
+            # one perturbation term is DEFINED in the input basis: diagonal there (on-site potential) or exactly Hermitian
+            # there (a Hermitian perturbation on top of a non-Hermitian H_0); its canonical form is Q^-1 M Q
+            o_in = tuple(1 if k == p.n_par - 1 else 0 for k in range(p.n_par))
+            if rng.random() < 0.5:
+                M_in = np.diag(rng.integers(-2 * DEN, 2 * DEN + 1, size=p.N) / DEN).astype(complex)
+                p.notes["input_basis_term"] = "diagonal"
+            else:
+                A_ = (rng.integers(-DEN, DEN + 1, size=(p.N, p.N)) + (1j * rng.integers(-DEN, DEN + 1, size=(p.N, p.N)) if cplx else 0)) / DEN
+                M_in = (A_ + A_.conj().T) / 2
+                p.notes["input_basis_term"] = "hermitian"
+            if not cplx:
+                M_in = M_in.real
+            p.terms_f[o_in] = np.asarray(Qi @ M_in @ Q, complex)
+            terms_enc[o_in] = _sp(M_in) if vtype == "sparse" else np.array(M_in)
+        # (sparse eigenvector matrices of a rotated basis are not generated: the library tests sparse blocks for EXACT
+        # zeros, so the rounding noise of L^dagger H_0 R makes it reject them - loudly - as "H_0 not block diagonal")
+        sparse_vecs = False
+        if sparse_vecs:
+            p.notes["sparse_eigenvectors"] = True
         vecs = []
         for b in range(nb):
             cols = list(range(off[b], off[b + 1]))
@@ -554,6 +574,8 @@ def _encode(p: Problem, rng):
                 Rb, Lb = Q[:, cols], Lfull[:, cols]
             else:
                 Rb, Lb = np.array(Q[:, cols]), np.array(Lfull[:, cols])
+                if sparse_vecs:
+                    Rb, Lb = sparse.csr_array(Rb), sparse.csr_array(Lb)
             if p.hermitian or (b == 0 and p.notes.get("plain_first_subspace")):
                 vecs.append(Rb)
             else:
